@@ -187,6 +187,9 @@ func H_C02_prevote_only_fully_valid_block() {
 	}
 	cs.ProposalBlock = block
 	cs.ProposalBlockParts = types.NewPartSetFromHeader(types.PartSetHeader{Total: 1, Hash: []byte{1}})
+	// the proposal the block came with: an original one (no proof-of-lock round) or a re-proposal that
+	// names any earlier round - whatever it names, the block is validated in full before the prevote
+	cs.Proposal = &types.Proposal{Height: cs.Height, Round: cs.Round, POLRound: int(verifNondetInt8())}
 	c02VoteCount, c02VoteHash = 0, nil
 
 	cs.defaultDoPrevote(cs.Height, cs.Round)
